@@ -363,6 +363,9 @@ func normalizeSpace(ctx *context, args []Datum) (retLit Datum) {
 		b.WriteString(" ")
 	}
 	retStr := b.String()
+	if len(retStr) == 0 {
+		return NewLiteralDatum("")
+	}
 	retStr = retStr[:len(retStr)-1] // Remove last space
 	return NewLiteralDatum(retStr)
 }
